@@ -6,7 +6,7 @@
    graceful closes and restarts, in every interleaving of Add calls, workers and the poller. *)
 From Coq Require Import List NArith.
 From K.Model Require Import C30.
-From K.Proof Require Retry C30.
+From K.Proof Require Retry C30 C30_live.
 Import ListNotations.
 Local Open Scope N_scope.
 
@@ -103,6 +103,18 @@ Theorem C30_progress_possible : forall s t,
   exists ops s' outs l, run s ops = (s', outs) /\ Retry.legal outs /\ s_log s' = l ++ s_log s /\ In (EStart t) l.
 Proof. exact Proof.C30.progress_possible_r. Qed.
 Print Assumptions C30_progress_possible.
+
+(* ... and with a live manager no restart is needed for that: the threads that are running can
+   finish what they have in hand (poller pass, Add calls, executions, queued tasks) by enabled
+   steps, after which one poller pass executes the task — unless it has already succeeded and the
+   worker's pending Remove takes it out.  (no_restart: no OpCrash, OpStart, OpStartCrash, OpClose) *)
+Theorem C30_progress_without_restart : forall s m t,
+  Retry.reachable s -> cfg_ok (s_cfg s) = true -> s_mgr s = Some m -> storedb t (s_store s) = true ->
+  exists ops s' outs l, run s ops = (s', outs) /\ Retry.legal outs /\
+    forallb Proof.C30_live.no_restart ops = true /\
+    s_log s' = l ++ s_log s /\ (In (EStart t) l \/ storedb t (s_store s') = false).
+Proof. exact Proof.C30_live.progress_live_r. Qed.
+Print Assumptions C30_progress_without_restart.
 
 (* "executed until an execution succeeds" — PARTIAL.  Proved: however often the executor fails
    (n times), the continuation in which the task is retried each time exists from every reachable
